@@ -24,6 +24,15 @@ ASSUMPTIONS = [
 _JUDGED = [0]  # number of states the oracle judged in the current replay (non-vacuity of the repaired histories)
 
 
+def _cls(err, kappa, mag, sig):
+    """Class of a wrong ratio: on a very ill-conditioned (but poised, not truncated) set an error within
+    1e3*eps*kappa^2 times the term magnitudes belongs to the known finding D31 (the formula loses kappa^2); any
+    other error, and any error on a set with kappa < 1e8, keeps the plain key and fails the check."""
+    if kappa >= 1e8 and abs(err) <= 1e3 * EPS * kappa * kappa * (mag + abs(sig)):
+        return ":conditioning-squared"
+    return ""
+
+
 def exact_inverse(W):
     m = len(W)
     ident = [[Fr(1) if i == j else Fr(0) for i in range(m)] for j in range(m)]
@@ -96,12 +105,14 @@ def oracle(st, models, info):
                 one = float(models.determinants(np.array(y, float), k))
             checked += 1
             if not abs(allk[k] - sig) <= tol:
-                viol.append({"key": "ratio-wrong:all-indices", "case": dict(case, y=list(y), k=k),
+                viol.append({"key": "ratio-wrong:all-indices" + _cls(allk[k] - sig, kappa, mag, sig),
+                             "case": dict(case, y=list(y), k=k),
                              "what": f"determinants(y)[{k}]={allk[k]!r} for y={list(y)} but the exact ratio is {sig!r} "
                                      f"(tolerance {tol:.3g}, kappa {kappa:.3g})"})
                 return viol
             if not abs(one - sig) <= tol:
-                viol.append({"key": "ratio-wrong:one-index", "case": dict(case, y=list(y), k=k),
+                viol.append({"key": "ratio-wrong:one-index" + _cls(one - sig, kappa, mag, sig),
+                             "case": dict(case, y=list(y), k=k),
                              "what": f"determinants(y, {k})={one!r} for y={list(y)} but the exact ratio is {sig!r} "
                                      f"(tolerance {tol:.3g})"})
                 return viol
@@ -234,7 +245,7 @@ def e1_oracle(rec, table=None):
             tol = 1e3 * EPS * max(kappa, 1.0) * (mag + abs(sig)) + 1e-300
             val = float(got[k] if d["k"] is None else got[0])
             if not abs(val - sig) <= tol:
-                viol.append({"key": "run:ratio-wrong",
+                viol.append({"key": "run:ratio-wrong" + _cls(val - sig, kappa, mag, sig),
                              "what": f"real run: determinants call #{i + 1} (k={d['k']}) returned {val!r} for index {k} "
                                      f"but the exact ratio is {sig!r} (tolerance {tol:.3g}, kappa {kappa:.3g})"})
                 return viol
